@@ -36,32 +36,176 @@ def _flat(a):
     return " ".join(Q(x) for x in np.asarray(a, dtype="double").ravel())
 
 
+def _c_strip(src):
+    src = re.sub(r"/\*.*?\*/", " ", src, flags=re.S)
+    return re.sub(r"//[^\n]*", " ", src)
+
+
+def _c_functions(src):
+    """name -> (parameter list text, body text) of every function DEFINED in a C file (comments removed)."""
+    out = {}
+    for m in re.finditer(r"\b(\w+)\s*\(([^;{}()]*(?:\([^()]*\)[^;{}()]*)*)\)\s*\{", src):
+        name = m.group(1)
+        if name in ("if", "for", "while", "switch"):
+            continue
+        depth, i = 1, m.end()
+        while i < len(src) and depth:
+            depth += {"{": 1, "}": -1}.get(src[i], 0)
+            i += 1
+        out[name] = (m.group(2), src[m.end():i - 1])
+    return out
+
+
+def _param_names(params):
+    names = []
+    for part in params.split(","):
+        ids = re.findall(r"[A-Za-z_]\w*", re.sub(r"\[[^\]]*\]", "", part))
+        if ids:
+            names.append(ids[-1])
+    return names
+
+
+_FOR = re.compile(r"for\s*\(\s*(\w+)\s*=\s*([^;]+?)\s*;\s*(\w+)\s*<\s*([^;]+?)\s*;\s*(\w+)\s*\+\+\s*\)\s*\{")
+
+
+def _find_hermitisation(body, consts, env):
+    """Look in `body` for  for(d<3){ [alias = base + off(d);] for(j = js; j < 3 np){ for(k = ks; k < 3 np){ six updates }}}.
+    Identifiers are arbitrary (alpha-renaming), loop-invariant constants and a pointer alias may be hoisted, the addresses are
+    checked as integer functions of (direction, j, k, num_patom) on random points.  Returns (jsIsDir, kFromJ) or None."""
+    import random as _r
+
+    for m1 in _FOR.finditer(body):
+        d, s1, _, b1, _ = m1.groups()
+        if s1 != "0" or b1.strip() != "3":
+            continue
+        rest = body[m1.end():]
+        m2 = _FOR.search(rest)
+        if not m2:
+            continue
+        hoist = rest[:m2.start()]
+        j, s2, _, b2, _ = m2.groups()
+        rest2 = rest[m2.end():]
+        m3 = _FOR.match(rest2.lstrip())
+        if not m3:
+            continue
+        k, s3, _, b3, _ = m3.groups()
+        inner = rest2.lstrip()[m3.end():]
+        stm = [x.strip() for x in inner.split("}")[0].split(";") if x.strip()]
+        if len(stm) != 8:
+            continue
+        # alias hoisted between the direction loop and the row loop:  alias = base + offset(d)
+        alias = {}
+        for h in [x.strip() for x in hoist.split(";") if x.strip()]:
+            mh = re.match(r"(\w+)\s*=\s*(\w+)\s*\+\s*(.+)$", h)
+            if not mh:
+                alias = None
+                break
+            alias[mh.group(1)] = (mh.group(2), mh.group(3))
+        if alias is None:
+            continue
+        ma, mt = re.match(r"(\w+)\s*=\s*(.+)$", stm[0]), re.match(r"(\w+)\s*=\s*(.+)$", stm[1])
+        if not (ma and mt):
+            continue
+        A, AT = ma.group(1), mt.group(1)
+        upd = "".join(re.sub(r"\s+", "", x) + ";" for x in stm[2:])
+        mm = re.match(r"(\w+)\[", upd)
+        if not mm:
+            continue
+        M = mm.group(1)
+        want = ("M[A][0]+=M[AT][0];M[A][0]/=2;M[A][1]-=M[AT][1];M[A][1]/=2;M[AT][0]=M[A][0];M[AT][1]=-M[A][1];"
+                .replace("AT", "\x00").replace("A", A).replace("\x00", AT).replace("M[", M + "["))
+        if upd != want:
+            continue
+        base, off = alias.get(M, (M, "0"))
+        if env.get(base, base) != "OUT":
+            continue
+
+        def ev(expr, vals):
+            e = expr
+            for _ in range(4):
+                for cn, cv in consts.items():
+                    e = re.sub(r"\b%s\b" % cn, "(" + cv + ")", e)
+            return eval(e, {"__builtins__": {}}, vals)
+
+        ok = True
+        try:
+            for _ in range(60):
+                npv = _r.randint(1, 7)
+                vals = {env.get("NP", "num_patom"): npv, d: _r.randint(0, 2)}
+                nb_ = 3 * npv
+                vals[j], vals[k] = _r.randrange(nb_), _r.randrange(nb_)
+                if ev(b2, vals) != nb_ or ev(b3, vals) != nb_:
+                    ok = False
+                    break
+                o = ev(off, vals)
+                if o + ev(ma.group(2), vals) != vals[d] * nb_ * nb_ + vals[j] * nb_ + vals[k] or \
+                        o + ev(mt.group(2), vals) != vals[d] * nb_ * nb_ + vals[k] * nb_ + vals[j]:
+                    ok = False
+                    break
+        except Exception:
+            ok = False
+        if not ok:
+            continue
+        if s2 not in (d, "0") or s3 not in ("0", j):
+            continue
+        return (1 if s2 == d else 0, 1 if s3 == j else 0)
+    return None
+
+
 def parse_loop_spec():
-    """Translator: loop bounds of the Hermitisation loop of ddm_get_derivative_dynmat_at_q as they stand in the source."""
-    src = open(os.path.join(common.REPO, "c", "derivative_dynmat.c")).read()
-    m = re.search(r"Symmetrize to be a Hermitian matrix \*/(.*?)if \(is_nac\)", src, re.S)
-    if not m:
-        return None, "Hermitisation block of ddm_get_derivative_dynmat_at_q not found"
-    blk = m.group(1)
-    mi = re.search(r"for \(i = 0; i < 3; i\+\+\)", blk)
-    mj = re.search(r"for \(j = (\w+); j < num_patom \* 3; j\+\+\)", blk)
-    mk = re.search(r"for \(k = (\w+); k < num_patom \* 3; k\+\+\)", blk)
-    body = re.sub(r"\s+", "", blk[mk.end():]) if mk else ""
-    want = ("{adrs=i*num_patom*num_patom*9+j*num_patom*3+k;adrsT=i*num_patom*num_patom*9+k*num_patom*3+j;"
-            "derivative_dynmat[adrs][0]+=derivative_dynmat[adrsT][0];derivative_dynmat[adrs][0]/=2;"
-            "derivative_dynmat[adrs][1]-=derivative_dynmat[adrsT][1];derivative_dynmat[adrs][1]/=2;"
-            "derivative_dynmat[adrsT][0]=derivative_dynmat[adrs][0];derivative_dynmat[adrsT][1]=-derivative_dynmat[adrs][1];}}}")
-    if not (mi and mj and mk) or mj.group(1) not in ("i", "0") or mk.group(1) not in ("0", "j") or body != want:
-        return None, "Hermitisation loop of ddm_get_derivative_dynmat_at_q has a shape the model does not cover: %r" % blk[:400]
-    return (1 if mj.group(1) == "i" else 0, 1 if mk.group(1) == "j" else 0), None
+    """Translator: loop bounds of the Hermitisation of `ddm_get_derivative_dynmat_at_q` as they stand in the source.
+    The loop is looked for in the body of the PUBLIC entry point and, through its call graph, in the static helpers it calls with
+    the output array (a single-use helper is treated as inlined); names of statics, locals and hoisted constants do not matter."""
+    src = _c_strip(open(os.path.join(common.REPO, "c", "derivative_dynmat.c")).read())
+    funcs = _c_functions(src)
+    if "ddm_get_derivative_dynmat_at_q" not in funcs:
+        return None, "public entry point ddm_get_derivative_dynmat_at_q not found"
+    params, body = funcs["ddm_get_derivative_dynmat_at_q"]
+    pn = _param_names(params)
+    if len(pn) < 2:
+        return None, "unexpected signature of ddm_get_derivative_dynmat_at_q"
+    out_name, np_name = pn[0], pn[1]
+
+    def consts_of(text):
+        return {m.group(1): m.group(2) for m in re.finditer(r"const\s+int64_t\s+(\w+)\s*=\s*([^;]+);", text)}
+
+    found = []
+    r0 = _find_hermitisation(body, consts_of(body), {out_name: "OUT", "NP": np_name})
+    if r0 is not None:
+        found.append(r0)
+    for m in re.finditer(r"\b(\w+)\s*\(([^;{}]*?)\)\s*;", body):
+        callee = m.group(1)
+        if callee not in funcs or callee == "ddm_get_derivative_dynmat_at_q":
+            continue
+        args = [x.strip() for x in m.group(2).split(",")]
+        cp, cb = funcs[callee]
+        cpn = _param_names(cp)
+        if len(cpn) != len(args) or out_name not in args:
+            continue
+        env = {cpn[args.index(out_name)]: "OUT"}
+        if np_name in args:
+            env["NP"] = cpn[args.index(np_name)]
+        else:
+            continue
+        r1 = _find_hermitisation(cb, consts_of(cb), env)
+        if r1 is not None:
+            found.append(r1)
+    if len(found) != 1:
+        return None, ("Hermitisation loop of ddm_get_derivative_dynmat_at_q: %d candidates found in the entry point and the static helpers "
+                      "it calls with the output array; the model covers exactly one triple loop of the known body" % len(found))
+    return found[0], None
 
 
-def tables(ddm):
-    p2s = np.array(ddm._p2s_map, dtype=int)
-    s2p = np.array(ddm._s2p_map, dtype=int)
-    multi = np.array(ddm._multi, dtype=int)  # (ns, np, 2): count, start
-    svecs = np.array(ddm._svecs, dtype="double")
-    return p2s, s2p, multi, svecs
+def tables(ph):
+    """p2s/s2p maps and the dense shortest-vector tables, from the public attributes of the primitive cell."""
+    from phonopy.structure.cells import sparse_to_dense_svecs
+
+    prim = ph.primitive
+    svecs, multi = prim.get_smallest_vectors()
+    if not prim.store_dense_svecs:
+        svecs, multi = sparse_to_dense_svecs(svecs, multi)
+    return (np.array(prim.p2s_map, dtype=int), np.array(prim.s2p_map, dtype=int), np.array(multi, dtype=int),
+            np.array(svecs, dtype="double"))
 
 
 def phases(qpt, svecs):
@@ -87,7 +231,7 @@ def request_ddmall(spec, ph, ddm, fc, qpt, nac):
 
 
 def _request_ddmall(spec, ph, ddm, fc, qpt, nac):
-    p2s, s2p, multi, svecs = tables(ddm)
+    p2s, s2p, multi, svecs = tables(ph)
     npa, ns, nv = len(p2s), len(s2p), len(svecs)
     m = ph.primitive.masses
     ms = np.array([[np.sqrt(m[i] * m[j]) for j in range(npa)] for i in range(npa)])
@@ -179,37 +323,60 @@ def _cflat(a):
     return " ".join("%s %s" % (Q(z.real), Q(z.imag)) for z in a)
 
 
-def gv_pipeline_requests(ph, qpt, with_symmetry):
-    """Requests for the model of GroupVelocity._calculate_group_velocity_at_q fed with the implementation's own eigh results."""
+GV_CUTOFF = 1e-4                                          # documented default of GroupVelocity(cutoff_frequency=...)
+GV_DIR0 = np.array([1.0, 2.0, 3.0]) / np.linalg.norm([1.0, 2.0, 3.0])  # auxiliary direction that splits degenerate sets
+
+
+def fd_derivatives(ph, qpt, h):
+    """(D(q + dq) - D(q - dq)) / h / 2 for the auxiliary direction and the three Cartesian axes, dq = cell . (direction * h):
+    the definition of the finite-difference option, from DynamicalMatrix.run only. Returns (4 arrays, list of (Dp, Dm))."""
+    dm = ph.dynamical_matrix
+    cellm = np.array(ph.primitive.cell, dtype="double")
+    out, pairs = [], []
+    for dvec in [GV_DIR0] + [np.eye(3)[a_] for a_ in range(3)]:
+        dq = np.dot(cellm, dvec * h)
+        dm.run(qpt - dq)
+        Dm_ = dm.dynamical_matrix.copy()
+        dm.run(qpt + dq)
+        Dp_ = dm.dynamical_matrix.copy()
+        out.append((Dp_ - Dm_) / h / 2)
+        pairs.append((Dp_, Dm_))
+    return out, pairs
+
+
+def gv_pipeline_requests(ph, qpt, with_symmetry, q_length=None):
+    """Request for the model of the whole group-velocity pipeline at one q, built from PUBLIC data only: DynamicalMatrix.run,
+    DerivativeOfDynamicalMatrix (analytic) or finite differences of D (q_length), numpy's eigh, the primitive cell and the
+    reciprocal operations of the primitive symmetry.  The implementation side is GroupVelocity(...).run([q])."""
     from phonopy.phonon.degeneracy import degenerate_sets
     from phonopy.phonon.group_velocity import GroupVelocity
 
     sym = ph.primitive_symmetry if with_symmetry else None
-    gvo = GroupVelocity(ph.dynamical_matrix, symmetry=sym, frequency_factor_to_THz=ph.unit_conversion_factor)
+    factor = ph.unit_conversion_factor
+    gvo = GroupVelocity(ph.dynamical_matrix, q_length=q_length, symmetry=sym, frequency_factor_to_THz=factor, cutoff_frequency=GV_CUTOFF)
     gvo.run([qpt])
     gv_impl = gvo.group_velocities[0].copy()
-    try:
-        return _gv_pipeline_model_inputs(ph, qpt, sym, gvo, gv_impl, with_symmetry)
-    except AttributeError:
-        return None, gv_impl, None, 0, 0.0, []
-
-
-def _gv_pipeline_model_inputs(ph, qpt, sym, gvo, gv_impl, with_symmetry):
-    from phonopy.phonon.degeneracy import degenerate_sets
-
     dm = ph.dynamical_matrix
+    if q_length is None:
+        from phonopy.harmonic.derivative_dynmat import DerivativeOfDynamicalMatrix as DerivativeOfDynamicalMatrixPublic
+
+        dobj = DerivativeOfDynamicalMatrixPublic(dm)
+        dobj.run(qpt)
+        ddm3 = dobj.d_dynamical_matrix.copy()
+        ddm0 = sum(GV_DIR0[j_] * ddm3[j_] for j_ in range(3))
+    else:
+        fds, _ = fd_derivatives(ph, qpt, q_length)
+        ddm0, ddm3 = fds[0], np.array(fds[1:])
     dm.run(qpt)
     eigvals, eigvecs = np.linalg.eigh(dm.dynamical_matrix)
     eigvals = eigvals.real
-    freqs = np.sqrt(abs(eigvals)) * np.sign(eigvals) * gvo._factor
+    freqs = np.sqrt(abs(eigvals)) * np.sign(eigvals) * factor
     deg = degenerate_sets(freqs)
-    ddms = gvo._get_dD(np.array(qpt))
-    ddm3 = gvo._ddm.d_dynamical_matrix.copy()
     d = len(freqs)
     us, hyp = [], 0.0
     for st in deg:
         es = eigvecs[:, st]
-        P = np.dot(es.T.conj(), np.dot(ddms[0], es))
+        P = np.dot(es.T.conj(), np.dot(ddm0, es))
         mu, U = np.linalg.eigh(P)
         us.append(U)
         Ph = (P + P.conj().T) / 2
@@ -217,12 +384,12 @@ def _gv_pipeline_model_inputs(ph, qpt, sym, gvo, gv_impl, with_symmetry):
     # the model groups the bands itself from the frequency array (degenerate_sets(freqs), tolerance 1e-4 THz);
     # the harness only supplies one eigh result per set of that grouping
     parts = ["gvfull", str(d), _flat(freqs), Q(1e-4), str(len(deg)), " ".join(str(len(st)) for st in deg),
-             " ".join(_cflat(U) for U in us), _cflat(eigvecs), _cflat(ddm3), Q(gvo._factor), Q(gvo._cutoff_frequency)]
+             " ".join(_cflat(U) for U in us), _cflat(eigvecs), _cflat(ddm3), Q(factor), Q(GV_CUTOFF)]
     cert = None
     nsel = 0
     if with_symmetry:
         ops = np.array(sym.reciprocal_operations, dtype=int)
-        B = np.array(gvo._reciprocal_lattice, dtype="double")
+        B = np.array(np.linalg.inv(ph.primitive.cell), dtype="double")
         Binv = np.linalg.inv(B)
         qbz = qpt - np.rint(qpt)
         tol = sym.tolerance
@@ -239,7 +406,6 @@ def _gv_pipeline_model_inputs(ph, qpt, sym, gvo, gv_impl, with_symmetry):
     else:
         parts.append("0")
     return " ".join(parts), gv_impl, cert, nsel, hyp, [len(st) for st in deg]
-
 
 
 def pick_smat(rng, k, max_det=8):
@@ -381,7 +547,7 @@ def main(run):
         run.count("fc %s" % fckind)
         run.count("q %s" % qkind)
         run.count("nac" if with_nac else "no-nac")
-        run.sample(dict(info, n_patom=npa, n_satom=ns, n_svecs=len(ddm._svecs)))
+        run.sample(dict(info, n_patom=npa, n_satom=ns, n_svecs=len(tables(ph)[3])))
         made += 1
 
         # ---------------- oracle on the implementation: analytic derivative == derivative of D(q)
@@ -484,21 +650,22 @@ def main(run):
         # the finite-difference arrays themselves against the model of _get_dD_FD
         from phonopy.phonon.group_velocity import GroupVelocity as _GV
         kdir = rng.randrange(4)
-        try:
-            gfd = _GV(ph2.dynamical_matrix, q_length=1e-5, frequency_factor_to_THz=ph2.unit_conversion_factor)
+        hq = 1e-5
+        fds, pairs = fd_derivatives(ph2, qpt, hq)
+        gv_lines.append("fdd %d %s %s %s" % (len(f0), Q(hq), _cflat(pairs[kdir][0]), _cflat(pairs[kdir][1])))
+        gv_meta.append(("fdd", dict(info, direction=int(kdir)), fds[kdir]))
+        try:  # optional intermediate hook: the arrays the class itself forms
+            gfd = _GV(ph2.dynamical_matrix, q_length=hq, frequency_factor_to_THz=ph2.unit_conversion_factor)
             dfd = gfd._get_dD_FD(np.array(qpt))
-            dqc = gfd._directions[kdir] * gfd._q_length
-            dq_ = np.dot(gfd._reciprocal_lattice_inv, dqc)
-            dmx = ph2.dynamical_matrix
-            dmx.run(qpt + dq_)
-            Dp_ = dmx.dynamical_matrix.copy()
-            dmx.run(qpt - dq_)
-            Dm_ = dmx.dynamical_matrix.copy()
-            gv_lines.append("fdd %d %s %s %s" % (len(f0), Q(gfd._q_length), _cflat(Dp_), _cflat(Dm_)))
-            gv_meta.append(("fdd", dict(info, direction=int(kdir)), dfd[kdir]))
+            run.count("fd-dD intermediate hook (GroupVelocity._get_dD_FD) compared", section="correspondence")
+            if np.abs(dfd[kdir] - fds[kdir]).max() > TOL * max(1e-6, np.abs(fds[kdir]).max()):
+                run.broke("correspondence", "GroupVelocity._get_dD_FD differs from (D(q+dq) - D(q-dq))/q_length/2 by %.3g" % np.abs(dfd[kdir] - fds[kdir]).max(), info)
         except AttributeError:
-            gv_lines.append(None)
-            gv_meta.append(("fdd", dict(info, direction=int(kdir)), None))
+            run.count("intermediate hook unavailable: GroupVelocity._get_dD_FD", section="correspondence")
+        # end to end: the model pipeline fed with the finite-difference derivative vs GroupVelocity(q_length).run
+        line_, gv_i, _, _, hyp_, dsz_ = gv_pipeline_requests(ph2, qpt, False, q_length=hq)
+        gv_lines.append(line_)
+        gv_meta.append(("gvfull", dict(info, symmetrised=False, derivative="finite difference q_length=%g" % hq, degenerate_set_sizes=dsz_), (gv_i, 0)))
         # correspondence of the gv formula: feed eigh + C derivative to the model
         dm = ph.dynamical_matrix
         ddm = DerivativeOfDynamicalMatrix(dm)
@@ -560,7 +727,9 @@ def main(run):
         for msym in (True, False):
             gr = PhonopyGruneisen(phs[0], phs[1], phs[2])
             gr.set_mesh(mesh, is_mesh_symmetry=msym, is_gamma_center=rng.choice([True, False]) if False else False)
-            res[msym] = gr.get_mesh() + (gr._mesh.get_eigenvalues(),)
+            gm_ = gr.get_mesh()
+            fac_m = phs[0].unit_conversion_factor
+            res[msym] = gm_ + (np.sign(gm_[2]) * (gm_[2] / fac_m) ** 2,)  # eigenvalues from the reported frequencies (public)
         info = dict(cell=name, smat=np.array(smat).tolist(), g=g, volumes=[float(v) for v in vols], mesh=list(map(int, mesh)), uniform=uniform)
         run.case(("grun", name, np.array(smat).tolist(), g, dv, dvm, tuple(mesh), uniform), nontrivial=True)
         run.count("gruneisen-%s" % ("uniform-scaling" if uniform else "pair-potential-volumes"))
